@@ -15,6 +15,7 @@ def run(ctx):
     ctx.run_space(asan, "pm2grammar", ["maxbits=%d" % (8 if T else 5)], cpu_limit=60)
     ctx.run_space(asan, "pm1grammar", ["maxbits=%d" % (12 if T else 9)], cpu_limit=60)
     ctx.run_space(asan, "lh1bits", ["maxbits=%d" % (16 if T else 12)], cpu_limit=60)
+    ctx.run_space(asan, "lh1long", cpu_limit=60)
     for m in LH:
         if not T and m in ("-lh4-", "-lh7-"):
             continue     # same code as -lh5- / -lh6- with another ring size; thorough runs them all
@@ -43,7 +44,7 @@ def run(ctx):
     return ctx.finish(
         rule="'short': every byte string up to the length (thorough: also every 3-byte string for the seven small-state decoders, plain build, two schedules) as the whole compressed input of each of the 14 method names x declared lengths {0,1,65536,2^32-1} x read schedules {1.., 3.., 4096.., 1 then 4096} (+ one byte per input callback for bit-reader decoders); "
              "'lhgrammar'/'lhgrammar2': block count x temp-table size x all-equal temp lengths (0..19, unary extension) x skip x code-table size / out-of-range single symbols x offset-table size beyond the maximum, each followed by every bit string up to maxbits with all-0 and all-1 tails; "
-             "'subst': every byte position of several hundred (thorough: thousands of) valid streams dumped from the C01/C03/C04 spaces x all 255 substitutions, truncation, 0x00/0xFF tails; 'pm2grammar': num_codes x min_len x length_bits over their full 5+3+3-bit ranges x field values, then bit strings; 'pm1grammar': 32 headers x every command prefix; 'lh1bits'. Oracle: no sanitizer report/signal, read(k) returns <= k, total <= declared, the call returns (CPU watchdog). "
+             "'subst': every byte position of several hundred (thorough: thousands of) valid streams dumped from the C01/C03/C04 spaces x all 255 substitutions, truncation, 0x00/0xFF tails; 'pm2grammar': num_codes x min_len x length_bits over their full 5+3+3-bit ranges x field values, then bit strings; 'pm1grammar': 32 headers x every command prefix; 'lh1bits'; 'lh1long': valid -lh1- prefixes that have used 312..314 different codes (three orders, one and two rounds) or a staircase of counts, followed by every byte x 4 second bytes. Oracle: no sanitizer report/signal, read(k) returns <= k, total <= declared, the call returns (CPU watchdog). "
              "non-trivial = distinct input byte strings",
         replay_fn=lambda rep: runner.replay_explorer(rep, quiet=True))
 
